@@ -251,7 +251,8 @@ def sizeVal (r : Except Err (Val × Option Val × Screen)) : Except Err Val :=
 
 /-- Round 4: the ROOT widget's Draw through the statement interpreter on the regenerated bodies (`Gen/SurfaceBodies`):
 `Center.Draw` (the child's Draw being the model), soft-wrap `RichText` / `Text` (`drawSoftwrap` calling the executed
-`findContainerSize`).  `none` = this widget's body is not executed (hard wrap, TextField, Button, Dynamic). -/
+`findContainerSize`).  hard-wrap `RichText` / `Text` (`Draw` calling the executed `findContainerSize`), `TextField`, `Button` (its Center-around-the-label
+draw being the model).  `none` = not executed (Dynamic: C19's interpreter). -/
 def drawExecuted (sizesOnly : Bool) (c : Ctx) (w : Widget) : Option String :=
   let scr0 := Screen.resize 0 0
   match w with
@@ -278,6 +279,45 @@ def drawExecuted (sizesOnly : Bool) (c : Ctx) (w : Widget) : Option String :=
       else none
     let R : Ro := { R0 with self := selfFn }
     some (execResult sizesOnly (run R Gen.SurfaceBodies.textDrawSoftwrap Gen.SurfaceBodies.textDrawSoftwrapParams [.wid 0, .ctx c] scr0))
+  | .rich true lines =>
+    let flds : String → Option Val := fun f => if f = "Softwrap" then some (.bool false) else none
+    let R0 : Ro := { noRo with fields := flds, hard := lines, wrapW := c.maxW }
+    let selfFn : String → List Val → Option (Except Err Val) := fun f args =>
+      if f = "meth:cells" then some (.ok (.cells lines.flatten))
+      else if f = "meth:findContainerSize" then
+        some (sizeVal (run R0 Gen.SurfaceBodies.richFindContainerSize Gen.SurfaceBodies.richFindContainerSizeParams args scr0))
+      else none
+    let R : Ro := { R0 with self := selfFn }
+    some (execResult sizesOnly (run R Gen.SurfaceBodies.richDraw Gen.SurfaceBodies.richDrawParams [.wid 0, .ctx c] scr0))
+  | .text true st lines =>
+    let flds : String → Option Val := fun f =>
+      if f = "Softwrap" then some (.bool false) else if f = "Style" then some (.sty st) else if f = "Content" then some .text else none
+    let R0 : Ro := { noRo with fields := flds, hard := lines, wrapW := c.maxW }
+    let selfFn : String → List Val → Option (Except Err Val) := fun f args =>
+      if f = "meth:findContainerSize" then
+        some (sizeVal (run R0 Gen.SurfaceBodies.textFindContainerSize Gen.SurfaceBodies.textFindContainerSizeParams args scr0))
+      else none
+    let R : Ro := { R0 with self := selfFn }
+    some (execResult sizesOnly (run R Gen.SurfaceBodies.textDraw Gen.SurfaceBodies.textDrawParams [.wid 0, .ctx c] scr0))
+  | .field chars =>
+    -- the value as one grapheme cluster per character (the result does not depend on the clustering:
+    -- `Props.C14Body.textfieldDraw_body_eq_model`); style 0 is never read: the characters carry theirs
+    let st := (chars.head?.map (·.st)).getD 0
+    let flds : String → Option Val := fun f =>
+      if f = "Value" then some (.clusters (chars.map fun ch => [ch])) else if f = "Style" then some (.sty st)
+      else if f = "cursor" then some (.int 0) else none
+    let R : Ro := { noRo with fields := flds }
+    if chars.all (·.st == st) then
+      some (execResult sizesOnly (run R Gen.SurfaceBodies.textfieldDraw Gen.SurfaceBodies.textfieldDrawParams [.wid 0, .ctx c] scr0))
+    else none
+  | .button st lines =>
+    let flds : String → Option Val := fun f =>
+      if f = "mouseDown" ∨ f = "hover" ∨ f = "focused" then some (.bool false)
+      else if f = "Style" then some (.wid 7)
+      else if f = "MouseDown" then some (.sty (st + 1)) else if f = "Hover" then some (.sty (st + 2)) else if f = "Focus" then some (.sty (st + 3))
+      else if f = "Default" then some (.sty st) else if f = "Label" then some .text else none
+    let R : Ro := { noRo with fields := flds, labelDraw := fun st' c' => draw (.center (.text false st' lines)) c' }
+    some (execResult sizesOnly (run R Gen.SurfaceBodies.buttonDraw Gen.SurfaceBodies.buttonDrawParams [.wid 0, .ctx c] scr0))
   | _ => none
 
 end executed
